@@ -12,6 +12,7 @@ Frames are reported as "module.dotted:qualname"; the parent maps them to nodes o
 import json
 import os
 import sys
+import types
 
 WATCH = ("compile", "exec", "import", "open", "os.", "subprocess.", "socket.", "shutil.", "ctypes.", "urllib.",
          "http.", "ftplib.", "smtplib.", "pickle.", "marshal.", "code.", "builtins.input", "builtins.breakpoint",
@@ -187,7 +188,8 @@ def walk(root, limit=60000):
         if isinstance(o, numpy.ndarray):
             out.append((path, o))
             continue
-        if isinstance(o, (str, bytes, int, float, complex, bool, type(None), type, type(sys))) or callable(o):
+        if isinstance(o, (str, bytes, int, float, complex, bool, type(None), type, type(sys), types.FunctionType,
+                          types.BuiltinFunctionType, types.MethodType, types.CodeType)):
             continue
         if isinstance(o, dict):
             out.append((path, o))
@@ -276,7 +278,11 @@ def twice(fmt, text):
             except Exception:   # noqa
                 pass
     p2 = getParser(fmt)
-    s2 = p2.parse(text)
+    try:
+        s2 = p2.parse(text)
+    except Exception as e:   # noqa: the first parse of the very same text succeeded
+        return {"same": False, "diff": "the second parse raised %s: %s" % (type(e).__name__, str(e)[:120]), "shared": [],
+                "edited": edited, "objects": len(g1)}, s1
     root2 = {"stru": s2, "parser": p2}
     snap2 = canon(root2)
     shared = ["%s is first%s" % (pth, ids1[id(o)]) for pth, o in walk(root2) if id(o) in ids1 and id(o) not in const_ids]
